@@ -138,7 +138,7 @@ def engine_consts(dev, menu, lines, maxlines, maxfiles, joinsets, modes, intrs, 
     # `<-` substitutions are written through the raw-string path of cfg_text
     return {"Dev": {q(d) for d in dev}, "Statements": "<-" + menu, "TableDefs": {q(t) for t in tdefs},
             "LineSet": "<-" + lines, "MaxLines": maxlines, "MaxFiles": maxfiles, "JoinLineSets": "<-" + joinsets,
-            "Modes": {q(m) for m in modes}, "InterruptPoints": "<-" + intrs}
+            "Modes": {q(m) for m in modes}, "InterruptPoints": "<-" + intrs, "Lazy": False}
 
 
 def engine_run(c, name, menu, lines="Lines3", maxlines=3, maxfiles=2, joinsets="JoinSets", modes=("batch",), intrs="NoIntr",
@@ -166,6 +166,25 @@ def engine_run(c, name, menu, lines="Lines3", maxlines=3, maxfiles=2, joinsets="
                                               "modes": list(modes), "interrupts": intrs, "behaviours_replayed": rep.get("cases", 0),
                                               "states": r.distinct})
     return rep
+
+
+def engine_sim(c, name, menu, lines="Lines4", maxlines=10, num=2000, modes=("batch", "incr"), tdefs=("plain",), joinsets="JoinSets", invs=ENGINE_INVS):
+    """Random LONG inputs: TLC -simulate on the lazy-input configuration of Engine.tla (lines arrive one by one, up to maxlines),
+    invariants checked along every behaviour, every finished behaviour replayed on the real code."""
+    dev = vlib.open_devs(ENGINE_DEVS)
+    k = engine_consts(dev, menu, lines, maxlines, 1, joinsets, modes, "NoIntr", tdefs)
+    k["Lazy"] = True
+    r = tlc("MC_Engine", cfg_text(constants=k, invariants=(list(invs) if not dev else ["TypeOK"]) + ["Emit"]), "engine-sim-" + name, workers=W, timeout=1500,
+            simulate="num=%d" % num, sim_depth=4 * maxlines + 20)
+    if r.violated or r.error:
+        expect_holds(r, "Engine simulation " + name)
+    c.states += r.replays; c.transitions += r.generated
+    if r.replays == 0:
+        raise ToolError("TLC simulation produced no finished behaviour for " + name)
+    rep = vh_replay("engine", r.replay_path, "engine-sim-" + name, env_extra={"TZ": "UTC"})
+    c.add_report(rep, ENGINE_WHAT)
+    c.extra.setdefault("configs", []).append({"name": "sim-" + name, "menu": menu, "lines": lines, "max_lines": maxlines, "simulated_behaviours": r.replays,
+                                              "behaviours_replayed": rep.get("cases", 0)})
 
 
 def engine_follow_run(c, name, menu, lines="Lines3", maxlines=3, tdefs=("plain",), sample=1500, invs=("TypeOK", "FollowLimit", "IncrRefinesSem", "IncrSelectRefinesSem")):
@@ -205,6 +224,7 @@ def check_C04(tier):
     t = tier == "thorough"
     engine_witness(c, "AggEmptyGroupDropped", "CoreMenu", lines="LinesAgg")
     engine_run(c, "agg", "AggMenu", lines="LinesAgg", maxlines=4 if t else 3, maxfiles=1, tdefs=("plain",) if not t else ("plain", "knn", "vdef"), modes=("batch",))
+    engine_sim(c, "agg", "AggMenu", lines="LinesAgg", maxlines=10, num=2500 if t else 200, modes=("batch",))
     c.rule, c.assumptions, c.exhaustive = ENGINE_RULE, ENGINE_ASSUME, True
     return c.finish()
 
@@ -217,6 +237,7 @@ def check_C03(tier):
     # impl -> spec, semantic: random typed expression trees (depth <= 4) evaluated by the real engine; TLC evaluates Expr.Eval on each
     trace_check(c, "expr", "Trace_Expr", 12000 if t else 4000, "expr", "random expression trees vs Expr.Eval", constants={"Dev": set()}, rounds=3 if t else 1, env={"TZ": "UTC"})
     laws_trace(c, 2 if t else 1, 300 if t else 100)
+    engine_sim(c, "select", "SelectMenu", lines="Lines4", maxlines=10, num=1500 if t else 120)
     c.rule, c.assumptions, c.exhaustive = ENGINE_RULE, ENGINE_ASSUME, True
     return c.finish()
 
@@ -225,6 +246,7 @@ def check_C05(tier):
     c = Check("C05", tier, "model_checking")
     t = tier == "thorough"
     engine_run(c, "join", "JoinMenu", lines="LinesJ", maxlines=4 if t else 3, maxfiles=1, tdefs=("plain", "knn") if t else ("plain",))
+    engine_sim(c, "join", "JoinMenu", lines="LinesJ", maxlines=8, num=1500 if t else 120, modes=("batch",))
     c.rule, c.assumptions, c.exhaustive = ENGINE_RULE, ENGINE_ASSUME, True
     return c.finish()
 
@@ -236,6 +258,8 @@ def check_C07(tier):
     engine_run(c, "limit-join", "LimitJoinMenu", lines="LinesJ", maxlines=3, maxfiles=2, tdefs=("plain",))
     engine_follow_run(c, "limit", "FollowMenu", lines="Lines3", maxlines=4 if t else 3, sample=4000 if t else 1200)
     laws_trace(c, 2 if t else 1, 300 if t else 100)
+    engine_sim(c, "limit", "LimitMenu", lines="Lines4", maxlines=10, num=2000 if t else 150, modes=("batch",))
+    engine_sim(c, "limit-join", "LimitJoinMenu", lines="LinesJ", maxlines=8, num=1000 if t else 80, modes=("batch",))
     c.rule, c.assumptions, c.exhaustive = ENGINE_RULE, ENGINE_ASSUME, True
     return c.finish()
 
@@ -244,6 +268,7 @@ def check_C08(tier):
     c = Check("C08", tier, "model_checking")
     t = tier == "thorough"
     engine_run(c, "distinct", "DistinctMenu", lines="Lines4", maxlines=5 if t else 4, maxfiles=1, modes=("batch", "incr"), tdefs=("plain",))
+    engine_sim(c, "distinct", "DistinctMenu", lines="Lines4", maxlines=12, num=2000 if t else 150)
     c.rule, c.assumptions, c.exhaustive = ENGINE_RULE, ENGINE_ASSUME, True
     return c.finish()
 
@@ -255,6 +280,8 @@ def check_C11(tier):
     engine_run(c, "incr-agg", "AggMenu", lines="LinesAgg", maxlines=3, maxfiles=1, modes=("incr",), tdefs=("plain",))
     engine_follow_run(c, "tables", "CoreMenu", lines="LinesAgg", maxlines=4 if t else 3, tdefs=("plain", "knn"), sample=4000 if t else 1200)
     laws_trace(c, 2 if t else 1, 300 if t else 100)
+    engine_sim(c, "incr", "AggMenu", lines="LinesAgg", maxlines=10, num=2000 if t else 150, modes=("incr",))
+    engine_sim(c, "incr-core", "CoreMenu", lines="Lines4", maxlines=12, num=1000 if t else 80, modes=("incr",))
     c.rule, c.assumptions, c.exhaustive = ENGINE_RULE, ENGINE_ASSUME, True
     return c.finish()
 
@@ -275,6 +302,7 @@ def check_C06(tier):
     engine_run(c, "noise", "CoreLimitMenu", lines="LinesNoise", maxlines=4 if t else 3, maxfiles=1, modes=("batch", "incr"), tdefs=("plain", "knn", "vdef", "bothnn"))
     engine_run(c, "noise-join", "JoinMenu", lines="LinesNoise", maxlines=2, maxfiles=1, tdefs=("plain", "knn"))
     laws_trace(c, 2 if t else 1, 300 if t else 100)
+    engine_sim(c, "noise", "CoreLimitMenu", lines="LinesNoise", maxlines=12, num=1500 if t else 120, tdefs=("plain", "bothnn"))
     c.rule, c.assumptions, c.exhaustive = ENGINE_RULE, ENGINE_ASSUME, True
     return c.finish()
 
@@ -513,6 +541,7 @@ def check_C15(tier):
     engine_run(c, "order", "OrderMenu", lines="LinesAgg", maxlines=4 if t else 3, maxfiles=1, tdefs=("plain",),
                invs=["TypeOK", "BatchRefinesSem", "PermLaw", "CombineLaw"], props=())
     laws_trace(c, 3 if t else 1, 400 if t else 150)
+    engine_sim(c, "order", "OrderMenu", lines="LinesAgg", maxlines=8, num=1500 if t else 120, modes=("batch",), invs=["TypeOK", "BatchRefinesSem"])
     c.rule = ENGINE_RULE + (" PermLaw quantifies over all permutations of each enumerated input, CombineLaw over all cut points; the real code is run on every ordering (TLC enumerates all sequences) and, on the "
                             "repository's corpora, on seeded shuffles and cuts whose outputs are related by Trace_Laws.tla.")
     c.assumptions, c.exhaustive = ENGINE_ASSUME + ["REAL sums are only compared when exactly representable (dyadic)"], True
@@ -574,6 +603,7 @@ def check_C18(tier):
     laws_trace(c, 2 if t else 1, 300 if t else 100)
     trace_check(c, "process", "Trace_Laws", 60 if t else 15, "process", "fresh-process executions of the CLI (byte-identical output)", rounds=2 if t else 1,
                 env={"VH_CLI": vlib.build_cli()})
+    engine_sim(c, "determinism", "DistinctMenu", lines="Lines4", maxlines=10, num=1000 if t else 80)
     c.rule = ENGINE_RULE + (" Determinism of the model is checked through TLC's out-degree statistics (every state has at most one successor); every replayed behaviour must equal the model's unique output; "
                             "the CLI is run 4 times per case in fresh processes (fresh RandomState seeds), with unrelated tables defined before / after the queried one, and the outputs must be identical line by line.")
     c.assumptions, c.exhaustive = ENGINE_ASSUME + ["now() is excluded"], True
